@@ -44,10 +44,12 @@ func projTok(t *token.Token) lexTok {
 		tk.V = ints(t.AsString)
 	case token.TokenInt, token.TokenFloat, token.TokenEOF, token.TokenBad:
 	default:
-		if _, ok := token.KeywordsMap[t.Kind]; !ok {
+		if _, ok := token.KeywordsMap[t.Kind]; ok {
+			tk.K = "kw"
+		} else {
 			tk.K = "punct"
-			tk.V = ints(k)
 		}
+		tk.V = ints(k)
 	}
 	for _, c := range t.Comments {
 		tk.Cs = append(tk.Cs, lexComment{Sp: ints(c.Space), Raw: ints(c.Raw), P: int(c.Pos), E: int(c.End)})
